@@ -100,6 +100,17 @@ extern int64_t cmb_resourceguard_wait(struct cmb_resourceguard *rgp,
                                       cmb_resourceguard_demand_func *demand,
                                       const void *ctx);
 
+/** @cond */
+/*
+ * The same for a process that has been waiting since the given time, used by
+ * the resource classes when one call has to go back to the guard for more.
+ */
+extern int64_t cmi_resourceguard_wait_since(struct cmb_resourceguard *rgp,
+                                            cmb_resourceguard_demand_func *demand,
+                                            const void *ctx,
+                                            double since);
+/** @endcond */
+
 /**
  * @brief  Ring the bell for a resource guard to check if any of the waiting
  *         processes should be resumed. Will evaluate the demand function for
